@@ -20,6 +20,7 @@ import (
 	"fmt"
 	"io"
 	"sync"
+	"unicode/utf8"
 )
 
 const (
@@ -145,6 +146,11 @@ func Encrypt(in io.Reader, opts EncryptOptions) (io.Reader, error) {
 		keyName = ""
 	} else if keyName == "" {
 		keyName = opts.KeyName
+	}
+	// The manifest is JSON: a name that is not valid UTF-8 would be altered when it is encoded, and the recipient would
+	// be asked for another key than the one named here
+	if !utf8.ValidString(keyName) {
+		return nil, errors.New("key name is not valid UTF-8")
 	}
 	manifest, err := json.Marshal(&Manifest{
 		KeyName:              keyName,
